@@ -35,7 +35,7 @@ fn instantiate(progs: &[Vec<VOp>]) -> Vec<Vec<VOp>> {
 
 // ------------------------------------------------------- sequential (E2) part
 
-#[derive(Clone, Debug, PartialEq, Eq, Hash)]
+#[derive(Clone, Debug, PartialEq, Eq, Hash, serde::Serialize, serde::Deserialize)]
 enum SOp {
     W(usize),
     Get(usize),
@@ -152,10 +152,17 @@ fn main() {
     let thorough = args.tier == Tier::Thorough;
     if let Some(p) = &args.replay {
         let doc = read_replay(p);
-        println!("engine {} driver/model {}", doc["engine"], if doc["driver"].is_null() { &doc["model"] } else { &doc["driver"] });
-        println!("{}", doc["detail"].as_str().unwrap_or(""));
-        for c in doc["calls"].as_array().cloned().unwrap_or_default() {
-            println!("  {}", c.as_str().unwrap_or(""));
+        if doc["engine"] == "vsched" {
+            std::process::exit(replay_cli("C10", p, &doc, VecDriver::from_spec));
+        }
+        // sequential model "seq:<flavour>:<start>"
+        let model = doc["model"].as_str().unwrap_or("").to_string();
+        let parts: Vec<&str> = model.split(':').collect();
+        let flavour = [VFlavour::IntCounterList, VFlavour::CounterMap, VFlavour::HistogramList].into_iter().find(|f| format!("{:?}", f) == *parts.get(1).unwrap_or(&""));
+        let start = [Start::Empty, Start::HasA, Start::RemovedA].into_iter().find(|f| format!("{:?}", f) == *parts.get(2).unwrap_or(&""));
+        match (flavour, start) {
+            (Some(flavour), Some(start)) => std::process::exit(statespace::replay_cli("C10", p, &doc, &SeqVec { flavour, start })),
+            _ => std::process::exit(2),
         }
     }
     let alpha = alphabet();
